@@ -103,6 +103,63 @@ def check_mpeg(ctx):
                 ctx.disagree("MPEGFrame", {"fields": combo}, model=line, impl=real)
 
 
+def check_mpeg_vbr(ctx):
+    """Layer III streams whose first frame carries a Xing/Info or VBRI header: duration and average bitrate come from
+    the frame and byte counts in that header.  Xing/Info sits behind the side information (32 bytes MPEG-1 stereo, 17 MPEG-1
+    mono and MPEG-2/2.5 stereo, 9 MPEG-2/2.5 mono), VBRI always 32 bytes behind the 4 header bytes."""
+    from mutagen.mp3 import MP3
+    rng = ctx.rng
+    for v in (3, 2, 0):
+        ver = {0: 25, 2: 20, 3: 10}[v]
+        for m in range(4):
+            for s in range(3):
+                for kind_ in ("Xing", "Info", "VBRI"):
+                    for rep in range(ctx.budget(1, 4)):
+                        b = rng.choice([5, 9, 12, 14]) if rep else 9
+                        br = ISO_BR[(ver, 3)][b] * 1000; sr = ISO_SR[ver][s]
+                        flen = iso_frame_length(ver, 3, br, sr, 0)
+                        hdr = mpeg_header(v, 1, 1, b, s, 0, 0, m, 0)
+                        side = (32 if m != 3 else 17) if ver == 10 else (17 if m != 3 else 9)
+                        nfr = rng.choice([1, 2, 199, 200, 4000, 123457]); nby = rng.randrange(1000, 40_000_000)
+                        if kind_ == "VBRI":
+                            vb = b"VBRI" + struct.pack(">HHHLLHHHH", 1, 0, 75, nby, nfr, 1, 1, 2, 1) + b"\x00\x00"
+                            if 4 + 32 + len(vb) > flen:
+                                continue
+                            first = hdr + b"\0" * 32 + vb
+                        else:
+                            xi = kind_.encode() + struct.pack(">LLL", 3, nfr, nby)
+                            if 4 + side + len(xi) > flen:
+                                continue
+                            first = hdr + b"\0" * side + xi
+                        first += b"\0" * (flen - len(first))
+                        stream = first + (hdr + b"\0" * (flen - 4)) * 5
+                        spf = 1152 if ver == 10 else 576
+                        exp_len = nfr * spf / float(sr)
+                        exp_br = nby * 8 / exp_len
+                        case = {"fmt": "MPEG-VBR", "header": kind_, "version": ver / 10.0, "mode": m, "rate_index": s, "bitrate_index": b,
+                                "frames": nfr, "bytes": nby}
+                        kind, r = timed(lambda: MP3(io.BytesIO(stream)).info, 10)
+                        ctx.case(key=("mpeg-vbr", kind_, v, m, s, b, nfr, nby), nontrivial=True, modelled=False,
+                                 sample=case if (v, m, s, kind_, rep) == (3, 3, 0, "Xing", 0) else None)
+                        ctx.hist["mpeg-vbr:" + kind_] += 1
+                        if kind != "ok":
+                            ctx.violation("mpeg:vbr:%s:stream-rejected" % kind_, "stream with a %s header rejected: %r" % (kind_, r), case)
+                            continue
+                        bad = {}
+                        if r.length != exp_len:
+                            bad["length"] = (r.length, exp_len)
+                        # average bit rate: byte count over duration; whether the header frame itself is counted is a convention
+                        if abs(r.bitrate - exp_br) > flen * 8 / exp_len + 1:
+                            bad["bitrate"] = (r.bitrate, exp_br)
+                        if r.sketchy:
+                            bad["sketchy"] = (True, False)
+                        if (r.sample_rate, r.channels) != (sr, 1 if m == 3 else 2):
+                            bad["sample_rate+channels"] = ((r.sample_rate, r.channels), (sr, 1 if m == 3 else 2))
+                        if bad:
+                            ctx.violation("mpeg:vbr:%s:%s" % (kind_, "+".join(sorted(bad))),
+                                          "MP3().info ignores or misreads the %s header (MPEG-%s mode %d): %r" % (kind_, ver / 10.0, m, bad), case)
+
+
 SI_LIMITS = [("minbs", 16), ("maxbs", 16), ("minfs", 24), ("maxfs", 24), ("sr", 20), ("ch", 3), ("bps", 5), ("total", 36), ("md5", 128)]
 
 
@@ -229,6 +286,7 @@ def check_more(ctx):
 def run(ctx):
     ctx.rule = RULE
     check_mpeg(ctx)
+    check_mpeg_vbr(ctx)
     check_flac(ctx)
     check_more(ctx)
 
